@@ -1,6 +1,9 @@
 """C18 - repair and subdivision keep the surface and restore validity (repair.py, remesh.py, base.py, graph.py)."""
 import itertools
 
+import math
+from fractions import Fraction
+
 import numpy as np
 
 import common
@@ -211,6 +214,8 @@ def run_case(c):
         longest = float(base.edges_unique_length.max())
         me = c["factor"] * longest
         o["bound"] = me
+        if len(base.faces) <= 300:
+            o["tris0"] = np.array(base.triangles).tolist()
         try:
             t = base.subdivide_to_size(max_edge=me, max_iter=c["max_iter"])
             o.update({"raised": False, "max_edge": float(t.edges_unique_length.max()), "area": float(t.area),
@@ -284,6 +289,10 @@ def model_request(c, o):
     if "err" not in o and "winding_model" in o:
         wm = o["winding_model"]
         return {"p": "C18", "op": "winding", "adj": wm["adj"], "same": wm["same"], "tree": wm["tree"], "n": wm["n"]}
+    if "err" not in o and c["kind"] == "to_size" and "tris0" in o:
+        b2 = Fraction(o["bound"]) ** 2
+        return {"p": "C18", "op": "to_size", "tris": [[[_q(x) for x in p] for p in t] for t in o["tris0"]],
+                "m2": [b2.numerator, b2.denominator], "fuel": c["max_iter"]}
     if "err" in o or "tris0" not in o:
         return None
     return {"p": "C18", "tris": [[[_q(x) for x in p] for p in t] for t in o["tris0"]]}
@@ -294,6 +303,20 @@ def compare(c, o, m):
         return "model error: " + str(m["err"])
     from fractions import Fraction
     f = lambda q: float(Fraction(q[0], q[1]))  # noqa
+    if c["kind"] == "to_size":
+        if m["tie"]:
+            STATS["to_size_ties_skipped"] = STATS.get("to_size_ties_skipped", 0) + 1
+            return None          # a longest edge within 1e-9 of the bound: float rounding may decide either way
+        if m["ok"] == o["raised"]:
+            return "subdivide_to_size: code %s, model %s" % ("raised" if o["raised"] else "returned",
+                                                              "succeeds" if m["ok"] else "runs out of iterations")
+        if m["ok"]:
+            if m["count"] != o["nfaces"]:
+                return f"subdivide_to_size: {o['nfaces']} faces, the model's face-by-face recursion gives {m['count']}"
+            if abs(math.sqrt(f(m["max_edge2"])) - o["max_edge"]) > 1e-9 * max(1.0, o["max_edge"]):
+                return "subdivide_to_size: longest remaining edge differs from the model"
+        STATS["to_size_compared"] = STATS.get("to_size_compared", 0) + 1
+        return None
     if "winding_model" in o:
         wm = o["winding_model"]
         if not m["tree_order"]:
